@@ -144,6 +144,12 @@ fn cmd_mut(m: &HashMap<String, String>) {
         }
         let mut cx = mutgen::Ctx { derive, em: &mut em, specs: *specs, universe: (1..=rk + 1).collect(), with_snap };
         mutgen::random_histories(&mut cx, &mut rng, nrandom, rk, rlen, rq);
+        // a second family over a wider name universe (graphs with 5-8 nodes; small requests to the derive functions)
+        let (n2, rk2, rlen2) = (geti(m, "random2", 0) as usize, geti(m, "rk2", 7) as i32, geti(m, "rlen2", 16) as usize);
+        if n2 > 0 {
+            let mut cx = mutgen::Ctx { derive, em: &mut em, specs: *specs, universe: (1..=rk2 + 1).collect(), with_snap };
+            mutgen::random_histories(&mut cx, &mut rng, n2, rk2, rlen2, rq);
+        }
     }
     let counts: Vec<String> = em.counts.iter().map(|(k, v)| format!("\"{}\":{}", k, v)).collect();
     println!("{{\"events\":{},\"counts\":{{{}}}}}", em.next_id - 1, counts.join(","));
